@@ -30,6 +30,7 @@ References:
 from __future__ import annotations
 
 from enum import IntEnum, unique
+from io import BytesIO
 from typing import Any, Dict, NamedTuple, Optional, Tuple, Union
 
 import cbor2
@@ -43,6 +44,26 @@ from bip_utils.bip.bip32 import Bip32ChainCode, Bip32Path, Bip32PathParser
 from bip_utils.ecc import IPublicKey
 from bip_utils.utils.crypto import Blake2b224, ChaCha20Poly1305, Crc32, Sha3_256
 from bip_utils.utils.misc import CborIndefiniteLenArrayDecoder, CborIndefiniteLenArrayEncoder
+
+
+def _CborLoads(data_bytes: bytes) -> Any:
+    """
+    Decode a single CBOR item that shall span the whole byte string.
+
+    Args:
+        data_bytes (bytes): CBOR bytes
+
+    Returns:
+        Any: Decoded item
+
+    Raises:
+        ValueError: If some bytes are left after the item
+    """
+    with BytesIO(data_bytes) as stream:
+        item = cbor2.CBORDecoder(stream).decode()
+        if stream.read(1) != b"":
+            raise ValueError("Invalid CBOR encoding (trailing bytes)")
+    return item
 
 
 @unique
@@ -140,8 +161,8 @@ class _AdaByronAddrAttrs(NamedTuple):
                 or (len(attrs_dict) != 0 and 1 not in attrs_dict and 2 not in attrs_dict)
                 or any(not isinstance(attr_val, bytes) for attr_val in attrs_dict.values())):
             raise ValueError("Invalid address attributes")
-        hd_path_enc_bytes = cbor2.loads(attrs_dict[1]) if 1 in attrs_dict else None
-        network_magic = cbor2.loads(attrs_dict[2]) if 2 in attrs_dict else None
+        hd_path_enc_bytes = _CborLoads(attrs_dict[1]) if 1 in attrs_dict else None
+        network_magic = _CborLoads(attrs_dict[2]) if 2 in attrs_dict else None
         if ((hd_path_enc_bytes is not None and not isinstance(hd_path_enc_bytes, bytes))
                 or (network_magic is not None and not isinstance(network_magic, int))):
             raise ValueError("Invalid address attributes")
@@ -221,7 +242,7 @@ class _AdaByronAddrPayload(NamedTuple):
         Raises:
             ValueError: If the serialization is not valid
         """
-        addr_payload: Tuple[bytes, Dict[int, bytes], int] = cbor2.loads(ser_payload_bytes)  # type: ignore [assignment]
+        addr_payload: Tuple[bytes, Dict[int, bytes], int] = _CborLoads(ser_payload_bytes)  # type: ignore [assignment]
         if (not isinstance(addr_payload, (list, tuple))
                 or len(addr_payload) != 3
                 or not isinstance(addr_payload[0], bytes)
@@ -298,7 +319,7 @@ class _AdaByronAddr(NamedTuple):
         Raises:
             ValueError: If the serialization is not valid
         """
-        addr_bytes: Tuple[cbor2.CBORTag, int] = cbor2.loads(ser_addr_bytes)     # type: ignore [assignment]
+        addr_bytes: Tuple[cbor2.CBORTag, int] = _CborLoads(ser_addr_bytes)     # type: ignore [assignment]
         if (not isinstance(addr_bytes, (list, tuple))
                 or len(addr_bytes) != 2
                 or not isinstance(addr_bytes[0], cbor2.CBORTag)
